@@ -239,6 +239,19 @@ func (g *inputGen) ambiguous(toks []token) bool {
 				return true
 			}
 		}
+		// a token that holds two sequences (a focus report sent twice): the second of them may start a table sequence
+		// that the following token completes (rxvt: ESC [ O, then a)
+		for o := 1; o < len(t.b); o++ {
+			if t.b[o] != 0x1b {
+				continue
+			}
+			tail := all[starts[i]+o:]
+			for _, s := range g.seqs {
+				if len(s) > len(t.b)-o && len(s) <= len(tail) && string(tail[:len(s)]) == s {
+					return true
+				}
+			}
+		}
 		// ESC followed by anything is an Alt prefix: a lone ESC token may only end the string
 		if len(t.b) == 1 && t.b[0] == 0x1b && i != len(toks)-1 {
 			return true
